@@ -110,11 +110,12 @@ let () =
   (* after an error: has the current log failed, has the memtable thread died (Model.xstate) *)
   let log_ok = ref true in
   let flush_ok = ref true in
+  let mani_ok = ref true in
   let pend = ref PNone in
-  let saved : (fs * vstate option * pending * bool * bool) list ref = ref [] in
-  let snaps : (string, fs * vstate option * pending * bool * bool) Hashtbl.t = Hashtbl.create 16 in
-  let xs vv = { x_v = vv; x_log_ok = !log_ok; x_flush_ok = !flush_ok } in
-  let set_x x = v := Some x.x_v; log_ok := x.x_log_ok; flush_ok := x.x_flush_ok in
+  let saved : (fs * vstate option * pending * bool * bool * bool) list ref = ref [] in
+  let snaps : (string, fs * vstate option * pending * bool * bool * bool) Hashtbl.t = Hashtbl.create 16 in
+  let xs vv = { x_v = vv; x_log_ok = !log_ok; x_flush_ok = !flush_ok; x_mani_ok = !mani_ok } in
+  let set_x x = v := Some x.x_v; log_ok := x.x_log_ok; flush_ok := x.x_flush_ok; mani_ok := x.x_mani_ok in
   let prog_of () : prog * bool =
     match !pend with
     | POpen -> let ((p, _), ok) = open_prog !s in (p, ok)
@@ -136,7 +137,7 @@ let () =
       let out =
         try
           match t with
-          | ["RESET"] -> s := []; v := None; pend := PNone; log_ok := true; flush_ok := true; Hashtbl.reset snaps; Hashtbl.reset sst_ids; Hashtbl.reset sst_of_id; Hashtbl.reset dir_ids; "OK"
+          | ["RESET"] -> s := []; v := None; pend := PNone; log_ok := true; flush_ok := true; mani_ok := true; mani_ok := true; Hashtbl.reset snaps; Hashtbl.reset sst_ids; Hashtbl.reset sst_of_id; Hashtbl.reset dir_ids; "OK"
           | "PEND" :: "O" :: _ -> pend := POpen; let (p, ok) = prog_of () in "CALLS " ^ show_prog p ^ (if ok then "" else " | FLAG 0")
           | ["PEND"; "W"; b] ->
               let kvs = List.map (fun kv -> match String.split_on_char '=' kv with
@@ -191,7 +192,7 @@ let () =
                    s := st;
                    (match !v with
                     | Some vv -> if ok then set_x (xnext_ok (xs vv) o)
-                                 else if refused (p, flag) then set_x (xnext_err (xs vv) o)
+                                 else if refused (p, flag) then set_x (xnext_err (xs vv) o false)
                     | None -> ());
                    pend := PNone;
                    (match !v with
@@ -200,15 +201,16 @@ let () =
                     | None -> Printf.sprintf "DONE ok=%d" (if ok then 1 else 0))
                | PNone -> "ERROR nothing pending")
           | ["EXIT"] -> s := image_a !s; v := None; pend := PNone; "OK"
-          | ["SAVE"] -> saved := (!s, !v, !pend, !log_ok, !flush_ok) :: !saved; "OK"
+          | ["SAVE"] -> saved := (!s, !v, !pend, !log_ok, !flush_ok, !mani_ok) :: !saved; "OK"
           | ["RESTORE"] ->
               (match !saved with
-               | (s0, v0, p0, l0, f0) :: r -> s := s0; v := v0; pend := p0; log_ok := l0; flush_ok := f0; saved := r; "OK"
+               | (s0, v0, p0, l0, f0, m0) :: r -> s := s0; v := v0; pend := p0; log_ok := l0; flush_ok := f0; mani_ok := m0; saved := r; "OK"
                | [] -> "ERROR nothing saved")
-          | ["SNAP"; nm] -> Hashtbl.replace snaps nm (!s, !v, !pend, !log_ok, !flush_ok); "OK"
+          | ["FLAGS"] -> Printf.sprintf "FLAGS log=%d flush=%d mani=%d" (if !log_ok then 1 else 0) (if !flush_ok then 1 else 0) (if !mani_ok then 1 else 0)
+          | ["SNAP"; nm] -> Hashtbl.replace snaps nm (!s, !v, !pend, !log_ok, !flush_ok, !mani_ok); "OK"
           | ["GOTO"; nm] ->
               (match Hashtbl.find_opt snaps nm with
-               | Some (s0, v0, p0, l0, f0) -> s := s0; v := v0; pend := p0; log_ok := l0; flush_ok := f0; "OK"
+               | Some (s0, v0, p0, l0, f0, m0) -> s := s0; v := v0; pend := p0; log_ok := l0; flush_ok := f0; mani_ok := m0; "OK"
                | None -> "ERROR no such snapshot")
           | ["FCALLS"; k] ->
               (* the calls the pending operation issues when an I/O error is injected into call k *)
@@ -220,7 +222,9 @@ let () =
               (match !pend, !v with
                | POp o, Some vv ->
                    let (p, flag) = prog_of () in
-                   let (st, e) = run_prog p (Some (nat_of_int (int_of_string k))) O !s None in
+                   let kn = nat_of_int (int_of_string k) in
+                   let (st, e) = run_prog p (Some kn) O !s None in
+                   let hm = hits_mani p kn in
                    pend := PNone;
                    (match e with
                     | None ->
@@ -234,7 +238,7 @@ let () =
                         let env = same_relb !s st in
                         s := st;
                         if env then begin
-                          set_x (xnext_err (xs vv) o);
+                          set_x (xnext_err (xs vv) o hm);
                           (match !v with
                            | Some w -> Printf.sprintf "FDONE err=1 env=1 seq=%s cur=%s files=%s mem=%s" (dec_of_n w.v_seq) (dec_of_n w.v_cur)
                                          (String.concat "," (List.map (fun x -> string_of_int (sst_id x)) w.v_files)) (show_entries w.v_mem)
